@@ -62,6 +62,16 @@ CHECKS = {
          "Trusted: GcStats.live_objects as reported by the heap after collect(); hook H4. Modules (immortal namespaces) are outside the domain. The constructs of the open finding C14-yield-in-block-leaks-scope are excluded by construction.",
          "property-based random program generation (proptest choice tape) + invariant over a repetition history (live-object count, quiescence)",
          "§10 C14"),
+ "C11": ("exploration",
+         "Stateful histories on ONE interpreter: 1-4 earlier runs whose state lives in nested scopes (12 wrapper kinds incl. blocks, calls, constructors, try/finally, generator bodies, native callbacks; depth 1-8), run as script or module and ended by completion, by an uncaught error at the innermost level, or by abandonment after a tape-chosen number of steps, followed by observer programs (typeof of every name the dead runs declared, fresh declarations reusing them, a random progen program). Oracle: observer outcomes and bookkeeping (call_depth, H4 quiescence) equal those of a fresh interpreter that only performed the deliberate global writes; an ended run leaves the interpreter quiescent. Sampled, not exhaustive.",
+         "Trusted: hook H4 (read-only snapshot); top-level declarations of earlier script runs are deliberate global effects and are replayed on the fresh interpreter; the value of the deliberate marker is read back from the used interpreter.",
+         "stateful property-based testing (history of runs from a proptest choice tape) against a fresh-interpreter reference",
+         "§10 C11"),
+ "C12": ("exploration",
+         "Two seeded random programs with an address- and order-sensitive epilogue are traced (step count, terminal result with payload, console lines): solo, three times after different perturbations (junk allocation, an abandoned interpreter, a failed run, several live interpreters dropped out of order), interleaved step-wise with each other in one thread under a tape-chosen schedule, in four OS threads at once (every 8th case) and in a separately spawned process (every 16th case); all traces must be identical. Sampled, not exhaustive.",
+         "Trusted: fixed time/random providers. Thread interleavings are not owned by the harness (smoke test only); cross-process comparison covers a 1/16 sample.",
+         "property-based random program generation + metamorphic comparison across repetitions, interleavings, threads and processes",
+         "§10 C12"),
 }
 
 NOT_YET = {}
